@@ -73,12 +73,26 @@ def run(tier, seed):
     while len(rngs) < nrng:
         k = len(rngs)
         rngs.append(("random-%d" % k, bytes(rnd.randrange(256) for _ in range(64))) if k % 2 else ("single-bit-%d" % k, bytes([1 << (k % 8)] + [0] * 63)))
+    # rare keys of the constant-time test mode (t leaves [0,q) before the final reduction), found by search with
+    # the harness's own CTEST samplers: code that special-cases "already in range" takes another path on these
+    edge = {44: [], 65: [], 87: []}
+    rel = vlib.build_harness("release")
+    for ln in vlib.drive(rel, "sweeps", seed=seed, ctedge=30000 if tier == "quick" else 400000, want=1 if tier == "quick" else 4).splitlines():
+        if ln.startswith("CTEDGE"):
+            _, s, score, hx = ln.split()
+            edge[int(s)].append(("edge-key(score %s)" % score, bytes.fromhex(hx) + b"\x5a" * 32))
+    chk.cov["ctest_edge_seeds"] = {str(k): len(v) for k, v in edge.items()}
     for s in (44, 65, 87):
-        for i, (label, data) in enumerate(rngs):
+        for i, (label, data) in enumerate(rngs + edge[s]):
             jobs.append(("dudect-%d" % s, label, ["dudect", str(s)], mkfile("r%02d_%d.bin" % (i, s), data)))
     q = 8380417
-    vecs = [("all-zero", bytes(1024)), ("all-FF (-1)", b"\xff" * 1024),
-            ("alternating extremes", b"".join((q - 1 if i % 2 else 0).to_bytes(4, "little") for i in range(256)))]
+    def le(vals):
+        return b"".join(int(v).to_bytes(4, "little", signed=True) for v in vals)
+    vecs = [("all 0", le([0] * 256)), ("all -1", le([-1] * 256)), ("all +1", le([1] * 256)),
+            ("alternating 0 / q-1", le([(q - 1) if i % 2 else 0 for i in range(256)])),
+            ("first half 0, second half large", le([0] * 128 + [4190208 - i for i in range(128)])),
+            ("all (q-1)/2", le([(q - 1) // 2] * 256)), ("all -(q-1)/2", le([-((q - 1) // 2)] * 256))]
+    nvec = max(nvec, len(vecs) + 1)
     while len(vecs) < nvec:
         vecs.append(("random-%d" % len(vecs), bytes(rnd.randrange(256) for _ in range(1024))))
     for k in KERNELS:
